@@ -1,6 +1,7 @@
 package textwire
 
 import (
+	"path/filepath"
 	"strings"
 	"sync/atomic"
 
@@ -134,7 +135,7 @@ func Configure(opt *config.Config) {
 	}
 
 	if opt.TemplateDir != "" {
-		userConfig.TemplateDir = strings.Trim(opt.TemplateDir, "/")
+		userConfig.TemplateDir = filepath.Clean(strings.Trim(opt.TemplateDir, "/"))
 	}
 
 	if opt.TemplateExt != "" {
